@@ -201,6 +201,8 @@ def run_check(prop, tier, seed, jobs=None):
         with ctx.Pool(min(jobs, len(items)), initializer=_worker_init, initargs=(modname,)) as pool:
             for r in pool.imap(_worker_run, list(enumerate(items)), chunksize=1):
                 results.append(r)
+            pool.close()    # let the workers exit normally (atexit handlers, e.g. coverage measurement)
+            pool.join()
     results.sort(key=lambda r: r['idx'])
 
     tot = collections.Counter()
